@@ -90,7 +90,11 @@ class Check:
             if key in seen_keys:
                 continue
             seen_keys.add(key)
-            if key in known_keys:
+            base = key[len('dbg.'):] if key.startswith('dbg.') else key          # the same site seen again in the debug-assertions MIR (thorough tier)
+            if key in known_keys or base in known_keys:
+                key = key if key in known_keys else base
+                if ('known', key) in seen_keys: continue
+                seen_keys.add(('known', key))
                 kn += 1
                 v['status'] = 'known'
                 lines.append('KNOWN-FINDING: property=%s %s [%s]' % (self.pid, known_keys[key].get('what', v.get('msg', '')), key))
